@@ -13,6 +13,8 @@ import (
 	"github.com/attestantio/vouch/internal/vstub"
 	"github.com/attestantio/vouch/services/attestationaggregator"
 	"github.com/attestantio/vouch/services/beaconcommitteesubscriber"
+	nullmetrics "github.com/attestantio/vouch/services/metrics/null"
+	"github.com/rs/zerolog"
 	e2wtypes "github.com/wealdtech/go-eth2-wallet-types/v2"
 )
 
@@ -54,6 +56,21 @@ func (h *c14Submitter) SubmitBeaconCommitteeSubscriptions(_ context.Context, sub
 	return nil
 }
 
+// c14New builds the subscriber the way main does: through New.
+func c14New(ct *vstub.ChainTime, processConcurrency int64, dp *c14Duties, agg *c14Agg, sub *c14Submitter) *Service {
+	s, err := New(context.Background(),
+		WithLogLevel(zerolog.Disabled),
+		WithMonitor(&nullmetrics.Service{}),
+		WithProcessConcurrency(processConcurrency),
+		WithChainTimeService(ct),
+		WithAttesterDutiesProvider(dp),
+		WithAttestationAggregator(agg),
+		WithBeaconCommitteeSubmitter(sub),
+	)
+	vnd.Assert(err == nil && s != nil, "C14.new.accepted")
+	return s
+}
+
 // VerifC14_Subscribe: every (slot, committee) with a duty in a slot after the
 // current one is subscribed, whatever other duties of the epoch lie in the past.
 func VerifC14_Subscribe() { c14Subscribe(vnd.IntRange("m", 1, 2)) }
@@ -65,7 +82,7 @@ func c14Subscribe(m int) {
 	dp := &c14Duties{}
 	agg := &c14Agg{flag: map[uint64]bool{}}
 	sub := &c14Submitter{}
-	s := &Service{chainTimeService: ct, processConcurrency: 2, attesterDutiesProvider: dp, attestationAggregator: agg, submitter: sub}
+	s := c14New(ct, 2, dp, agg, sub)
 	accounts := map[phase0.ValidatorIndex]e2wtypes.Account{}
 	slots := make([]phase0.Slot, m)
 	comms := make([]phase0.CommitteeIndex, m)
@@ -139,7 +156,6 @@ func c14Subscribe(m int) {
 	vnd.Assert(len(payload) == expected, "C14.subscribe.nothing-else")
 }
 
-
 // VerifC14_SubscribeSignFailures: three duties in three different future slots,
 // process concurrency 1..2; the slot-selection signing of any subset of the
 // slots fails. Subscribe still returns, and every slot whose signing worked is
@@ -150,7 +166,7 @@ func VerifC14_SubscribeSignFailures() {
 	dp := &c14Duties{}
 	agg := &c14Agg{flag: map[uint64]bool{}, failSlot: map[phase0.Slot]bool{}}
 	sub := &c14Submitter{}
-	s := &Service{chainTimeService: ct, processConcurrency: int64(vnd.IntRange("process-concurrency", 1, 2)), attesterDutiesProvider: dp, attestationAggregator: agg, submitter: sub}
+	s := c14New(ct, int64(vnd.IntRange("process-concurrency", 1, 2)), dp, agg, sub)
 	accounts := map[phase0.ValidatorIndex]e2wtypes.Account{}
 	const m = 3
 	var slots [m]phase0.Slot
